@@ -82,6 +82,8 @@ def observe(path, feats):
                 else:
                     out["h5py"][f] = gen.decode_contour(
                         [ev[f][k][:] for k in names])
+            elif f == "index":
+                out["h5py"][f] = [int(v) for v in ev[f][:]]
             else:
                 out["h5py"][f] = gen.decode(f, ev[f][:])
         out["count"] = h5.attrs.get("experiment:event count")
@@ -90,7 +92,8 @@ def observe(path, feats):
             for f in feats:
                 if f in ds.features_innate:
                     try:
-                        out["dclab"][f] = gen.read_feature_ids(ds, f)
+                        out["dclab"][f] = gen.read_feature_ids(ds, f) \
+                            if f != "index" else [int(v) for v in ds[f][:]]
                     except Exception as exc:
                         out["dclab"][f] = "raised " + type(exc).__name__
                 else:
@@ -113,6 +116,8 @@ def compare(exp_content, exp_logs, obs, feats):
     """-> None or (signature, detail)"""
     for f in feats:
         want = list(exp_content.get(f, []))
+        if f == "index":           # an enumeration, whatever was handed in
+            want = list(range(1, len(want) + 1))
         for reader in ("h5py", "dclab"):
             got = obs[reader].get(f, [] if reader == "dclab" else None)
             if f == "trace" and isinstance(got, dict):
@@ -238,7 +243,7 @@ CONSTANTS
 CHECK_DEADLOCK FALSE
 """
 T_FEATS = ("deform", "area_um", "image", "mask", "contour", "trace",
-           "fl1_max")
+           "fl1_max", "index")
 T_LOGS = ("log", "log2")
 T_CLASSES = ("short", "exact100", "long150", "unicode", "unicode140",
              "bytes")
@@ -303,6 +308,8 @@ def record_session(job):
             content = {}
             h5lens = set()
             for f in T_FEATS:
+                if f == "index":
+                    continue
                 g0 = obs["h5py"].get(f)
                 if isinstance(g0, dict):
                     g0 = (list(g0.values()) or [[]])[0]
@@ -311,7 +318,13 @@ def record_session(job):
             # (dclab's view is defined by the event count: compared only when
             # all stored features have the same number of events)
             cross = len(h5lens) == 1
+            idx = obs["h5py"].get("index") or []
+            e["indexlen"] = len(idx)
+            e["indexok"] = idx == list(range(1, len(idx) + 1))
             for f in T_FEATS:
+                if f == "index":
+                    content[f] = []
+                    continue
                 got = obs["h5py"].get(f)
                 if isinstance(got, dict):            # trace: per channel
                     vals = list(got.values()) or [[]]
@@ -330,13 +343,14 @@ def record_session(job):
                               for x in obs["logs"].get(ln, [])]
                          for ln in T_LOGS}
             lens = {len(v) for v in content.values() if v}
+            if e["indexlen"]:
+                lens.add(e["indexlen"])
             with h5py.File(path, "r") as h5:
                 cnt = h5.attrs.get("experiment:event count")
             if len(lens) == 1 and cnt is not None:
                 e["count"], e["stored"] = int(cnt), lens.pop()
             else:
                 e["count"] = e["stored"] = 0
-            e["indexok"] = True
     except Exception as exc:
         evs[-1]["raised"] = True
         evs[-1]["exc"] = type(exc).__name__
@@ -360,6 +374,7 @@ def record_session(job):
         e.setdefault("count", 0)
         e.setdefault("stored", 0)
         e.setdefault("indexok", True)
+        e.setdefault("indexlen", 0)
     return {"seed": sd, "feats": feats, "ev": evs}
 
 
@@ -402,7 +417,8 @@ def main(tier, seed, replay=None):
     root = tlc.scratch_dir("vp_c01_")
     try:
         plans = [("FeatsA", "NoLogs", 1), ("FeatsB", "NoLogs", 1),
-                 ("FeatsC", "NoLogs", 1), ("NoFeats", "Logs1", 1)]
+                 ("FeatsC", "NoLogs", 1), ("FeatsD", "NoLogs", 1),
+                 ("NoFeats", "Logs1", 1)]
         for feats, logs, ml in plans:
             islog = feats == "NoFeats"
             d = (4 if q else 5) if islog else (5 if q else 6)
